@@ -263,13 +263,17 @@ class cc_fill_attr_apply:
     modifies = ()
 
 
-@contract("urwid/canvas.py:CanvasOverlay", property=(), assumed=True, notes="canvas protocol: result has the bottom canvas's size; top canvas must fit (owned by C02)")
+@contract("urwid/canvas.py:CanvasOverlay", property=(), assumed=True,
+          notes="canvas protocol: result has the bottom canvas's size; the top canvas must lie inside the bottom one: left, top >= 0 and "
+                "right, bottom >= 0 (CompositeCanvas.overlay raises ValueError for right/bottom < 0 and, for left < 0, silently builds rows "
+                "wider than the canvas: Overlay(Text('0123456789abcdefghij'), SolidFill('.'), 'center', 'pack', 'middle', 'pack').render((12, 3)) "
+                "before /repo 61d1190 had a 16-column row in a 12-column canvas) (owned by C02)")
 class c_overlay:
     params = dict(top_c=CANVAS, bottom_c=CANVAS, left=Int, top=Int)
     result = CCANVAS
 
     def requires(a):
-        return both(a.bottom_c.ncols - a.left - a.top_c.ncols >= 0, a.bottom_c.nrows - a.top - a.top_c.nrows >= 0)
+        return both(a.left >= 0, a.top >= 0, a.bottom_c.ncols - a.left - a.top_c.ncols >= 0, a.bottom_c.nrows - a.top - a.top_c.nrows >= 0)
 
     def ensures(a, r):
         yield "size", both(r.ncols == a.bottom_c.ncols, r.nrows == a.bottom_c.nrows)
